@@ -370,6 +370,10 @@ func (c *Ctx) visitedGuarded(fi *core.FuncInfo, call *ast.CallExpr) bool {
 			m, key = ix.X, ix.Index
 		}
 		if m == nil {
+			// the same through methods of a named set type: `if set.seen(key) { return }` … `next := set.with(key)`
+			if c.visitedMethodsGuard(fi, call, cd.Expr) {
+				return true
+			}
 			continue
 		}
 		// the set (or a copy of it that is handed to the callee) is extended with the same key before the call
@@ -426,6 +430,91 @@ func (c *Ctx) visitedGuarded(fi *core.FuncInfo, call *ast.CallExpr) bool {
 			return true
 		}
 		// or a bounded depth counter: cond mentions a comparison of an int with a constant — not accepted here
+	}
+	return false
+}
+
+// visitedMethodsGuard: test is `S.m1(key)` with m1 a membership test on its map receiver; before the recursive call
+// a method `S.m2(key)` of the same receiver that returns the set extended with its parameter is called, and its
+// result (directly or through a local) is handed to the recursive call.
+func (c *Ctx) visitedMethodsGuard(fi *core.FuncInfo, call *ast.CallExpr, test ast.Expr) bool {
+	info := c.info(fi)
+	tc, ok := core.Unparen(test).(*ast.CallExpr)
+	if !ok || len(tc.Args) != 1 {
+		return false
+	}
+	tsel, ok := core.Unparen(tc.Fun).(*ast.SelectorExpr)
+	if !ok || !core.IsMap(info.TypeOf(tsel.X)) {
+		return false
+	}
+	m1 := c.P.Funcs[c.P.StaticCallee(fi, tc)]
+	if m1 == nil || m1.Decl.Recv == nil || len(m1.Decl.Recv.List) != 1 || len(m1.Decl.Recv.List[0].Names) != 1 {
+		return false
+	}
+	// m1 looks its parameter up in its receiver
+	m1info := c.info(m1)
+	recv1 := m1info.Defs[m1.Decl.Recv.List[0].Names[0]]
+	p1 := paramObj(m1, 0)
+	isMember := false
+	ast.Inspect(m1.Decl.Body, func(n ast.Node) bool {
+		if ix, ok := n.(*ast.IndexExpr); ok && core.ObjOf(m1info, ix.X) == recv1 && p1 != nil && core.ObjOf(m1info, ix.Index) == types.Object(p1) {
+			isMember = true
+		}
+		return true
+	})
+	if !isMember {
+		return false
+	}
+	key := tc.Args[0]
+	// the extension: S.m2(key) before the call, stored into the returned map inside m2
+	for _, ec := range calls(fi.Decl.Body) {
+		if ec.Pos() > call.End() || len(ec.Args) != 1 || !sameExpr(ec.Args[0], key) {
+			continue
+		}
+		esel, ok := core.Unparen(ec.Fun).(*ast.SelectorExpr)
+		if !ok || !sameExpr(esel.X, tsel.X) || !core.IsMap(info.TypeOf(ec)) {
+			continue
+		}
+		if c.mayChangeBetween(fi, key, test.Pos(), ec.Pos()) {
+			continue
+		}
+		m2 := c.P.Funcs[c.P.StaticCallee(fi, ec)]
+		if m2 == nil {
+			continue
+		}
+		m2info := c.info(m2)
+		p2 := paramObj(m2, 0)
+		stores := false
+		ast.Inspect(m2.Decl.Body, func(n ast.Node) bool {
+			as, ok := n.(*ast.AssignStmt)
+			if !ok {
+				return true
+			}
+			for _, l := range as.Lhs {
+				if ix, ok := core.Unparen(l).(*ast.IndexExpr); ok && core.IsMap(m2info.TypeOf(ix.X)) && p2 != nil && core.ObjOf(m2info, ix.Index) == types.Object(p2) {
+					stores = true
+				}
+			}
+			return true
+		})
+		if !stores {
+			continue
+		}
+		// handed to the recursive call: inline, or through the local it was assigned to
+		handed := ec.Pos() >= call.Pos() && ec.End() <= call.End()
+		if as, ok := c.parents(fi)[ec].(*ast.AssignStmt); ok && len(as.Lhs) == 1 {
+			if lo := core.ObjOf(info, as.Lhs[0]); lo != nil {
+				ast.Inspect(call, func(n ast.Node) bool {
+					if id, ok := n.(*ast.Ident); ok && info.Uses[id] == lo {
+						handed = true
+					}
+					return true
+				})
+			}
+		}
+		if handed {
+			return true
+		}
 	}
 	return false
 }
@@ -800,9 +889,22 @@ func (c *Ctx) importProgress() {
 			}
 			if g := c.P.Funcs[callee]; g != nil && depth < 2 && g.Decl != nil && g.Decl.Body != nil {
 				for _, s2 := range g.Decl.Body.List {
-					switch s2.(type) {
-					case *ast.IfStmt, *ast.SwitchStmt, *ast.TypeSwitchStmt:
+					switch cs2 := s2.(type) {
+					case *ast.IfStmt:
+						if cs2.Init != nil && isRewriteStmt(g, cs2.Init, depth+1) {
+							found = true
+						}
+						continue // the rest is conditional
+					case *ast.SwitchStmt, *ast.TypeSwitchStmt:
 						continue // conditional
+					case *ast.ReturnStmt:
+						// return rewrite(…)
+						for _, r := range cs2.Results {
+							if isRewriteStmt(g, r, depth+1) {
+								found = true
+							}
+						}
+						continue
 					}
 					if isRewriteStmt(g, s2, depth+1) {
 						found = true
@@ -874,58 +976,82 @@ func (c *Ctx) importProgress() {
 					continue
 				}
 				n++
-				ginfo := c.info(g)
-				pm := c.parents(g)
-				var bad []string
-				ast.Inspect(g.Decl.Body, func(m ast.Node) bool {
-					if _, isLit := m.(*ast.FuncLit); isLit {
-						return false
-					}
-					ret, ok := m.(*ast.ReturnStmt)
-					if !ok || len(ret.Results) == 0 {
+				var collectBad func(g *core.FuncInfo, depth int) []string
+				collectBad = func(g *core.FuncInfo, depth int) []string {
+					ginfo := c.info(g)
+					pm := c.parents(g)
+					var bad []string
+					ast.Inspect(g.Decl.Body, func(m ast.Node) bool {
+						if _, isLit := m.(*ast.FuncLit); isLit {
+							return false
+						}
+						ret, ok := m.(*ast.ReturnStmt)
+						if !ok || len(ret.Results) == 0 {
+							return true
+						}
+						last := ret.Results[len(ret.Results)-1]
+						if !core.IsNilExpr(ginfo, last) {
+							// `return step(entry, …)`: the step's own non-error returns are this function's
+							if tc, isCall := core.Unparen(last).(*ast.CallExpr); isCall && depth < 3 {
+								if h := c.P.Funcs[c.P.StaticCallee(g, tc)]; h != nil && h.Decl != nil && h.Decl.Body != nil {
+									hsig := h.Obj.Type().(*types.Signature)
+									for i := 0; i < hsig.Params().Len(); i++ {
+										if isRefHolders(hsig.Params().At(i).Type()) {
+											bad = append(bad, collectBad(h, depth+1)...)
+											break
+										}
+									}
+								}
+							}
+							return true // an error is returned (or a variable that may hold one: treated as error exit)
+						}
+						// a rewrite statement earlier in an enclosing statement list
+						okRet := false
+						var node ast.Node = ret
+						for node != nil && !okRet {
+							parent := pm[node]
+							var list []ast.Stmt
+							switch b := parent.(type) {
+							case *ast.BlockStmt:
+								list = b.List
+							case *ast.CaseClause:
+								list = b.Body
+							}
+							for _, st := range list {
+								if st.Pos() >= node.Pos() {
+									break
+								}
+								switch cst := st.(type) {
+								case *ast.IfStmt:
+									// `if err := rewrite(…); err != nil { … }`: the init statement runs unconditionally
+									if cst.Init != nil && isRewriteStmt(g, cst.Init, 0) {
+										okRet = true
+									}
+									continue
+								case *ast.SwitchStmt, *ast.TypeSwitchStmt:
+									continue
+								}
+								if isRewriteStmt(g, st, 0) {
+									okRet = true
+								}
+							}
+							node = parent
+						}
+						if !okRet {
+							bad = append(bad, c.P.Pos(ret.Pos()))
+						}
 						return true
-					}
-					if !core.IsNilExpr(ginfo, ret.Results[len(ret.Results)-1]) {
-						return true // an error is returned (or a variable that may hold one: treated as error exit)
-					}
-					// a rewrite statement earlier in an enclosing statement list
-					okRet := false
-					var node ast.Node = ret
-					for node != nil && !okRet {
-						parent := pm[node]
-						var list []ast.Stmt
-						switch b := parent.(type) {
-						case *ast.BlockStmt:
-							list = b.List
-						case *ast.CaseClause:
-							list = b.Body
-						}
-						for _, st := range list {
-							if st.Pos() >= node.Pos() {
-								break
-							}
-							switch st.(type) {
-							case *ast.IfStmt, *ast.SwitchStmt, *ast.TypeSwitchStmt:
-								continue
-							}
-							if isRewriteStmt(g, st, 0) {
-								okRet = true
-							}
-						}
-						node = parent
-					}
-					if !okRet {
-						bad = append(bad, c.P.Pos(ret.Pos()))
-					}
-					return true
-				})
+					})
+					return bad
+				}
+				bad := collectBad(g, 0)
 				c.S.Decide(len(bad) == 0, "C09", "TERM-IMPORT-PROGRESS", fi.QName()+"->"+callee.Name(), c.P.Pos(call.Pos()),
 					"every non-error return of "+callee.Name()+" comes after an unconditional rewrite of the holders of the remote $ref: a pass that reports 'not complete' has made progress",
 					callee.Name()+" can return without error and without having rewritten the holders of the remote $ref (return at "+strings.Join(bad, ", ")+"): the $ref stays remote, every later pass reports 'not complete' again and the import loop never ends")
 			}
 		}()
 	}
-	if n < 2 {
-		c.S.Undecided("C09", "TERM-IMPORT-PROGRESS", "floor", "-", fmt.Sprintf("only %d calls on a remote $ref after the completion flag is cleared found (confirmed by hand: 2)", n))
+	if n < 1 {
+		c.S.Undecided("C09", "TERM-IMPORT-PROGRESS", "floor", "-", "no step of a fixpoint pass taking the holders of a remote $ref found (two on the pinned tree)")
 	}
 }
